@@ -190,6 +190,60 @@ pub fn h_vec<S: Nd>(nd: &mut S) -> Out {
     Out::Pass
 }
 
+
+/// Capacities beyond 2^16: the logical length must not be held in a narrower counter. Backing bytes are
+/// concrete zeros (only the length is symbolic), the operation is push / extend / truncate / clear.
+pub fn h_big<const N: usize, S: Nd>(nd: &mut S) -> Out {
+    let n = nd.usize();
+    assume!(n <= N);
+    let mut buf = ArrayBuf::<N>::verif_from_raw([0u8; N], n);
+    check!(buf.len() == n, "C18: logical length not preserved for a large capacity (narrow counter?)");
+    let op = nd.u8();
+    assume!(op < 4);
+    let b = nd.u8();
+    let src: [u8; 3] = nd.arr();
+    let sl = nd.usize();
+    assume!(sl <= 3);
+    let k = nd.usize();
+    match op {
+        0 => {
+            let r = buf.push(b);
+            if n < N {
+                check!(r == Ok(()), "C18: push failed although there is room (large capacity)");
+                check!(buf.len() == n + 1, "C18: length after push wrong (large capacity)");
+                check!(buf[n] == b, "C18: pushed byte not visible (large capacity)");
+            } else {
+                check!(r == Err(OutOfMemory) && buf.len() == n, "C18: push on a full large buffer");
+            }
+        }
+        1 => {
+            let r = buf.extend_from_slice(&src[..sl]);
+            if n + sl <= N {
+                check!(r == Ok(()) && buf.len() == n + sl, "C18: extend_from_slice wrong for a large capacity");
+                if sl > 0 {
+                    check!(buf[n] == src[0], "C18: extended bytes not visible (large capacity)");
+                }
+            } else {
+                check!(r == Err(OutOfMemory) && buf.len() == n, "C18: failing extend changed a large buffer");
+            }
+        }
+        2 => {
+            buf.truncate(k);
+            check!(buf.len() == if k < n { k } else { n }, "C18: truncate wrong for a large capacity");
+        }
+        _ => {
+            buf.clear();
+            check!(buf.len() == 0, "C18: clear wrong for a large capacity");
+        }
+    }
+    cover!(n >= 65536, "witness: more than 2^16 elements");
+    Out::Pass
+}
+pub fn h_c18_big<S: Nd>(nd: &mut S) -> Out {
+    h_big::<65600, S>(nd)
+}
+// no #[kani::proof]: a 64 KiB by-value array costs CBMC > 13 GB; the 2^16 boundary is checked by engine E2 (chk_arraybuf_big)
+
 pub fn h_c18_step_0<S: Nd>(nd: &mut S) -> Out {
     h_step::<0, 2, S>(nd)
 }
@@ -234,4 +288,5 @@ pub fn register(v: &mut Vec<(&'static str, fn(&mut Replay) -> Out)>) {
     v.push(("c18_eq_1", h_c18_eq_1::<Replay>));
     v.push(("c18_eq_5", h_c18_eq_5::<Replay>));
     v.push(("c18_vec", h_vec::<Replay>));
+    v.push(("c18_big", h_c18_big::<Replay>));
 }
